@@ -105,7 +105,9 @@ def ctor(case, ctx):
     # helpers: shape and axes
     for name, fn, fillv in (("zeros(axes,dims)", lambda: da.zeros(axes=L, dims=D), 0.), ("ones(pairs)", lambda: da.ones(axes=[(d, l) for d, l in zip(D, L)]), 1.),
                             ("empty(Axis objects)", lambda: da.empty(axes=[Axis(l, d) for d, l in zip(D, LA)]), None),
-                            ("zeros_like", lambda: da.zeros_like(da.DimArray(v, axes=L, dims=D)), 0.), ("nans(axes,dims)", lambda: da.nans(axes=L, dims=D), float('nan')),
+                            ("zeros_like", lambda: da.zeros_like(da.DimArray(v, axes=L, dims=D)), 0.), ("ones_like", lambda: da.ones_like(da.DimArray(v, axes=L, dims=D)), 1.),
+                            ("nans_like", lambda: da.nans_like(da.DimArray(v, axes=L, dims=D)), float('nan')), ("empty_like", lambda: da.empty_like(da.DimArray(v, axes=L, dims=D)), None),
+                            ("ones(axes=Axis objects, dtype=int)", lambda: da.ones(axes=[Axis(l, d) for d, l in zip(D, LA)], dtype=int), 1.), ("nans(axes,dims)", lambda: da.nans(axes=L, dims=D), float('nan')),
                             ("DimArray(axes=pairs) without values", lambda: da.DimArray(axes=[(d, l) for d, l in zip(D, L)]), float('nan'))):
         label = "%s for dims=%r labels=%s" % (name, tuple(D), codec.short(L, 120))
         res, exc = ctx.call(label, fn, operands=())
